@@ -141,6 +141,9 @@ def _walk(ctx, args):
         n = N
         if not (0 <= cur[1] <= n) or len(cur[0]) != 2 * n:
             return bad('np:rank bookkeeping', cur[1], '0 <= r <= N')
+        inv = S.tableau_invariant_py(cur)
+        if inv:
+            return bad('np:tableau invariant broken: ' + inv, cur, 'valid tableau')
         if M:
             if M.call('tableau_ok', cur) != 1:
                 return bad('np:tableau invariant broken', cur, 'tableau_ok')
